@@ -347,12 +347,15 @@ def _kernel_nf_worker(sub, c):
             exp = comb.nf
         if knf != exp:
             bad.append((type(k.coeff).__module__.split(".", 2)[2] + "." + type(k.coeff).__name__, knf, exp))
+        if fam != "intrinsic" and "Intrinsic" not in type(k.coeff).__name__ and any(p_ > comb.nf for p_ in pids if p_ <= 6):
+            # only heavy-quark-initiated kernels may carry a weight for a quark above the nf active ones
+            bad.append((type(k.coeff).__module__.split(".", 2)[2] + "." + type(k.coeff).__name__ + " incoming quarks", [p_ for p_ in pids if p_ <= 6], f"<= {comb.nf}"))
         if fam == "heavy" and type(k.coeff).__name__.startswith("Singlet") and pids != list(range(1, comb.nf + 1)):
             bad.append((type(k.coeff).__name__ + " partons", pids, list(range(1, comb.nf + 1))))
     wrong_fl11 = sorted({n for n in fl11_nfs if n != comb.nf})
     if wrong_fl11:
         bad.append(("get_fl11_weight(nf=...)", wrong_fl11, comb.nf))
-    sub.add(ob_eval(name + f"/every kernel is built with nf={comb.nf} (heavy-quark-initiated ones with ihq-1); heavy singlet weights span the nf light quarks; the flavour trace of the fl11 weights runs over nf", comb.nf == c["nf"] and not bad, detail=f"{len(ks)} kernels" + (f"; offending (class, nf used, nf expected): {bad[:4]}" if bad else ""), inputs={} if not bad else {"cell": H.cell_name(c), "offending": str(bad[:4])}))
+    sub.add(ob_eval(name + f"/every kernel is built with nf={comb.nf} (heavy-quark-initiated ones with ihq-1); heavy singlet weights span the nf light quarks; incoming quarks of every other kernel are among the nf active ones; the flavour trace of the fl11 weights runs over nf", comb.nf == c["nf"] and not bad, detail=f"{len(ks)} kernels" + (f"; offending (class, nf used, nf expected): {bad[:4]}" if bad else ""), inputs={} if not bad else {"cell": H.cell_name(c), "offending": str(bad[:4])}))
 
 
 def sec_kernel_nf(rep, tier):
